@@ -345,6 +345,11 @@ class Tract:
         # Whether we have parsed this Tract and committed the results
         self.parse_complete = False
 
+        # The flags generated by the most recent committed parse of this
+        # Tract (as opposed to flags handed down from a parent PLSSDesc),
+        # so that re-parsing replaces them instead of duplicating them.
+        self._own_parse_flags = {}
+
         # list of warning flags
         self.w_flags = []
         # list of 2-tuples that caused warning flags (warning flag, text string)
@@ -930,6 +935,9 @@ class Tract:
 
             # Pull the preprocessed text from the parser.
             self.pp_desc = parser.text
+
+            # Remember which flags came from this parse.
+            self._own_parse_flags = parser.own_flags
 
         return parser.lots + parser.qqs
 
